@@ -146,7 +146,7 @@ def run_shard(ctx):
     from mc.props.C12 import type_sweep  # noqa: PLC0415
 
     type_sweep(ctx, PROP)  # exact-type rule for ordinary builtin leaf types registered as custom nodes
-    extra = (e1.core6_stratum(),) if ctx.tier == 'thorough' else ()
+    extra = (('aliasing', tuple(gen.aliasing_trees())), *((e1.core6_stratum(),) if ctx.tier == 'thorough' else ()))
     e1.drive(ctx, ctx.tier, lambda tree, leaves, dsl, cfg: check(ctx, tree, leaves, dsl, cfg), extra_strata=extra)
 
 
